@@ -8,11 +8,6 @@ Local Open Scope list_scope.
 (* PART 1 — workflow layer                                            *)
 (* ================================================================== *)
 
-(* hypothesis on exception objects: str(exc) returns (the Retry message of a
-   crashed step is an f-string containing the exception) — true of every
-   exception class in builtins, asyncio, httpx, kr8s *)
-Definition printable_end (e : tend) : Prop := forall p, e = Excepted p -> p = true.
-
 (* a step result is never a result.Ok INSTANCE (functions return bare values) *)
 Definition raw_end (e : tend) : Prop :=
   match e with Finished r => uraw json r = true | _ => True end.
@@ -21,28 +16,22 @@ Definition end_ok (e : tend) : bool :=
   match e with Finished r => sres_ok r | _ => false end.
 
 Definition is_fault_end (e : tend) : bool :=
-  match e with Cancelled | Excepted true => true | _ => false end.
+  match e with Cancelled | Excepted => true | _ => false end.
 
 Definition retry_with (d : Z) (o : sres) : Prop := exists m l, o = UOut (Retry d m l).
 
 (* ---------- classification ---------- *)
 
 (* the three arms cover every task state: task.result() is only reached for a
-   task that returned, so it never raises; what can raise is str(exception) *)
-Lemma classify_total e : printable_end e -> exists o, classify e = WDone o.
-Proof.
-  intros H. destruct e as [r| |p]; cbn; try (eexists; reflexivity).
-  rewrite (H p eq_refl). eexists; reflexivity.
-Qed.
-
-Lemma classify_unprintable_raises : classify (Excepted false) = WRaised.
-Proof. reflexivity. Qed.
+   task that returned, so it never raises *)
+Lemma classify_total e : exists o, classify e = WDone o.
+Proof. destruct e as [r| |]; cbn; eexists; reflexivity. Qed.
 
 Lemma classify_fault e :
   is_fault_end e = true ->
   (e = Cancelled /\ classify e = WDone timeout_outcome) \/
-  (e = Excepted true /\ classify e = WDone error_outcome).
-Proof. destruct e as [r| |[|]]; cbn; intros H; try discriminate; auto. Qed.
+  (e = Excepted /\ classify e = WDone error_outcome).
+Proof. destruct e as [r| |]; cbn; intros H; try discriminate; auto. Qed.
 
 Lemma classify_finished r : classify (Finished r) = WDone r.
 Proof. reflexivity. Qed.
@@ -50,9 +39,9 @@ Proof. reflexivity. Qed.
 (* every task state is covered by one of the three arms *)
 Lemma classify_cases e o :
   classify e = WDone o ->
-  (e = Cancelled /\ o = timeout_outcome) \/ (e = Excepted true /\ o = error_outcome) \/ e = Finished o.
+  (e = Cancelled /\ o = timeout_outcome) \/ (e = Excepted /\ o = error_outcome) \/ e = Finished o.
 Proof.
-  destruct e as [r| |[|]]; cbn; intros H; inversion H; subst; auto.
+  destruct e as [r| |]; cbn; intros H; inversion H; subst; auto.
 Qed.
 
 Lemma reason_ready_ok o : reason_of o = "Ready"%string -> sres_ok o = true.
@@ -100,29 +89,22 @@ Proof.
         exists (S k), o'. split; [f_equal; lia|]. split; [exact Hn|exact Hok].
 Qed.
 
-Lemma steps_loop_total ws : forall i ends,
-  Forall printable_end ends -> exists r, steps_loop i ws ends = WDone r.
+Lemma steps_loop_total ws : forall i ends, exists r, steps_loop i ws ends = WDone r.
 Proof.
-  induction ws as [|w wr IH]; intros i ends HF; [eexists; reflexivity|].
+  induction ws as [|w wr IH]; intros i ends; [eexists; reflexivity|].
   destruct ends as [|e er]; [eexists; reflexivity|].
-  inversion HF as [|? ? He Her]; subst. cbn [steps_loop]. unfold step_entry.
-  destruct (classify_total e He) as [o ->].
-  destruct (IH (S i) er Her) as [[os css] ->]. eexists; reflexivity.
+  cbn [steps_loop]. unfold step_entry.
+  destruct (classify_total e) as [o ->].
+  destruct (IH (S i) er) as [[os css] ->]. eexists; reflexivity.
 Qed.
 
 (* pass_total: nothing is raised out of reconcile_workflow, whatever the
    end states of the step tasks *)
-Lemma reconcile_workflow_total ws ends :
-  Forall printable_end ends -> exists r, reconcile_workflow_m ws ends = WDone r.
+Lemma reconcile_workflow_total ws ends : exists r, reconcile_workflow_m ws ends = WDone r.
 Proof.
-  intros HF. unfold reconcile_workflow_m, reconcile_steps.
-  destruct (steps_loop_total ws 0 ends HF) as [[outs cs] ->]. eexists; reflexivity.
+  unfold reconcile_workflow_m, reconcile_steps.
+  destruct (steps_loop_total ws 0 ends) as [[outs cs] ->]. eexists; reflexivity.
 Qed.
-
-(* ... and the one way it can be: an exception object whose __str__ raises *)
-Lemma reconcile_workflow_unprintable_raises :
-  reconcile_workflow_m [{| w_deps := []; w_cond := None |}] [Excepted false] = WRaised.
-Proof. reflexivity. Qed.
 
 Lemma workflow_outcomes ws ends r :
   List.length ends = List.length ws ->
@@ -144,7 +126,7 @@ Lemma faulted_step_error ws ends r k e :
   nth_error ends k = Some e -> is_fault_end e = true ->
   exists d m l, nth_error (wr_outcomes r) k = Some (UOut (Retry d m l)) /\
                 (e = Cancelled -> d = TIMEOUT_RETRY_DELAY) /\
-                (e = Excepted true -> d = UNKNOWN_ERROR_RETRY_DELAY).
+                (e = Excepted -> d = UNKNOWN_ERROR_RETRY_DELAY).
 Proof.
   intros Hlen H Hk Hf.
   destruct (workflow_outcomes ws ends r Hlen H) as (_ & Ho).
@@ -219,24 +201,8 @@ Qed.
 
 Lemma gate_invoke_all_ok l : gate_of l = GInvoke -> Forall (fun e => end_ok e = true) l.
 Proof.
-  induction l as [|e l IH]; [constructor|]. destruct e as [r| |p]; cbn; try discriminate.
+  induction l as [|e l IH]; [constructor|]. destruct e as [r| |]; cbn; try discriminate.
   destruct (sres_ok r) eqn:E; [|discriminate]. intros H. constructor; [exact E|now apply IH].
-Qed.
-
-Lemma gate_excepted_in l p : gate_of l = GExcepted p -> In (Excepted p) l.
-Proof.
-  induction l as [|e l IH]; [discriminate|]. destruct e as [r| |p']; cbn; try discriminate.
-  - destruct (sres_ok r); [|discriminate]. intros H. right. now apply IH.
-  - intros H. inversion H. now left.
-Qed.
-
-Lemma step_end_printable deps p :
-  Forall printable_end deps -> printable_end (p_logic p) -> printable_end (fst (step_end deps p)).
-Proof.
-  intros Hd Hp. unfold step_end. destruct (p_abort p); [intros t E; discriminate E|].
-  destruct (gate_of deps) eqn:G; cbn; try (intros t E; discriminate E); [exact Hp|].
-  apply gate_excepted_in in G. rewrite Forall_forall in Hd. intros t E. inversion E; subst.
-  exact (Hd _ G t eq_refl).
 Qed.
 
 Lemma step_end_not_invoked deps p :
@@ -377,31 +343,11 @@ Proof.
   destruct (dependent_not_run ws ps ends tr i w j Hwf Hlen H Hw Hj E) as [Hn _]. contradiction.
 Qed.
 
-Lemma run_from_printable ws : forall ps ends0 tr0,
-  Forall printable_end ends0 -> Forall (fun p => printable_end (p_logic p)) ps ->
-  Forall printable_end (fst (run_from ws ps ends0 tr0)).
-Proof.
-  induction ws as [|w wr IH]; intros ps ends0 tr0 H0 Hp; [destruct ps; exact H0|].
-  destruct ps as [|p pr]; [exact H0|]. cbn [run_from].
-  destruct (step_end (dep_ends ends0 (w_deps w)) p) as [e inv] eqn:Ese.
-  inversion Hp as [|? ? Hp1 Hpr]; subst. apply IH; [|exact Hpr].
-  apply Forall_app. split; [exact H0|]. constructor; [|constructor].
-  change e with (fst (e, inv)). rewrite <- Ese. apply step_end_printable; [|exact Hp1].
-  unfold dep_ends. apply Forall_forall. intros x Hx. apply in_map_iff in Hx as (d & <- & _).
-  destruct (nth_in_or_default d ends0 Cancelled) as [Hin|Hdef].
-  - rewrite Forall_forall in H0. now apply H0.
-  - rewrite Hdef. intros t E; discriminate E.
-Qed.
-
 (* pass_total for a whole pass under any plan *)
-Lemma run_workflow_total ws ps :
-  Forall (fun p => printable_end (p_logic p)) ps ->
-  exists r, fst (run_workflow ws ps) = WDone r.
+Lemma run_workflow_total ws ps : exists r, fst (run_workflow ws ps) = WDone r.
 Proof.
-  intros Hp. unfold run_workflow.
-  pose proof (run_from_printable ws ps [] [] (Forall_nil _) Hp) as Ht.
-  unfold run_steps. destruct (run_from ws ps [] []) as [ends tr]. cbn [fst] in *.
-  now apply reconcile_workflow_total.
+  unfold run_workflow. destruct (run_steps ws ps) as [ends tr]. cbn [fst].
+  apply reconcile_workflow_total.
 Qed.
 
 (* ---------- forEach ---------- *)
@@ -416,11 +362,10 @@ Proof.
     constructor; [exact Ec|now apply IH].
 Qed.
 
-Lemma classify_all_total ends :
-  Forall printable_end ends -> exists outs, classify_all ends = WDone outs.
+Lemma classify_all_total ends : exists outs, classify_all ends = WDone outs.
 Proof.
-  induction 1 as [|e er He _ [os IH]]; [eexists; reflexivity|]. cbn.
-  destruct (classify_total e He) as [o ->]. rewrite IH. eexists; reflexivity.
+  induction ends as [|e er [os IH]]; [eexists; reflexivity|]. cbn.
+  destruct (classify_total e) as [o ->]. rewrite IH. eexists; reflexivity.
 Qed.
 
 Lemma error_part_raw os : Forall (fun o : outcome json => raw o = true) (error_part os).
@@ -435,19 +380,19 @@ Proof.
   destruct x as [v|[]]; cbn in Hx; try contradiction; destruct Hx as [<-|[]]; cbn; lia.
 Qed.
 
-Lemma foreach_total ends : Forall printable_end ends -> exists o, foreach_result ends = WDone o.
+Lemma foreach_total ends : exists o, foreach_result ends = WDone o.
 Proof.
-  intros H. unfold foreach_result. destruct (classify_all_total ends H) as [outs ->].
+  unfold foreach_result. destruct (classify_all_total ends) as [outs ->].
   destruct (is_error _); eexists; reflexivity.
 Qed.
 
 (* a cancelled / crashed iteration makes the whole forEach step an error *)
 Lemma foreach_fault_error ends e :
-  Forall printable_end ends -> In e ends -> is_fault_end e = true ->
+  In e ends -> is_fault_end e = true ->
   exists o, foreach_result ends = WDone (UOut o) /\ is_error o = true.
 Proof.
-  intros Ht Hin Hf. unfold foreach_result.
-  destruct (classify_all_total ends Ht) as [outs Hc]. rewrite Hc. clear Ht.
+  intros Hin Hf. unfold foreach_result.
+  destruct (classify_all_total ends) as [outs Hc]. rewrite Hc.
   apply classify_all_spec in Hc.
   assert (exists d m l, In (UOut (Retry d m l)) outs) as (d & m & l & Ho).
   { induction Hc as [|e' o' er os Hc1 _ IH]; [contradiction|].
@@ -467,11 +412,11 @@ Qed.
 
 (* ... and so does an iteration that reports Retry / PermFail itself *)
 Lemma foreach_error_item ends r :
-  Forall printable_end ends -> In (Finished r) ends -> sres_error r = true ->
+  In (Finished r) ends -> sres_error r = true ->
   exists o, foreach_result ends = WDone (UOut o) /\ is_error o = true.
 Proof.
-  intros Ht Hin Hf. unfold foreach_result.
-  destruct (classify_all_total ends Ht) as [outs Hc]. rewrite Hc. clear Ht.
+  intros Hin Hf. unfold foreach_result.
+  destruct (classify_all_total ends) as [outs Hc]. rewrite Hc.
   apply classify_all_spec in Hc.
   assert (In r outs) as Ho.
   { induction Hc as [|e' o' er os Hc1 _ IH]; [contradiction|].
